@@ -56,6 +56,10 @@ type other16 struct {
 	B int64
 }
 
+// stand-ins of identical layout for the single-pointer-word structs
+type w1Twin struct{ Q *c09t.S }
+type w1mTwin struct{ N map[string]int }
+
 type s8 struct{ A int64 }
 type s24 struct{ A, B, C int64 }
 
@@ -97,6 +101,12 @@ func kinds() []*kindSpec {
 		{"struct", reflect.TypeOf(c09t.S{}), false, false, c09t.RStruct, c09t.PStruct,
 			func() retObs { return retObs{false, c09t.RStruct(0)} },
 			func(x interface{}) int { v, _ := x.(c09t.S); return c09t.PStruct(v) }},
+		{"struct1ptr", reflect.TypeOf(c09t.W1{}), false, false, c09t.RW1, c09t.PW1,
+			func() retObs { return retObs{false, c09t.RW1(0)} },
+			func(x interface{}) int { v, _ := x.(c09t.W1); return c09t.PW1(v) }},
+		{"struct1map", reflect.TypeOf(c09t.W1m{}), false, false, c09t.RW1m, c09t.PW1m,
+			func() retObs { return retObs{false, c09t.RW1m(0)} },
+			func(x interface{}) int { v, _ := x.(c09t.W1m); return c09t.PW1m(v) }},
 		{"[2]int", reflect.TypeOf([2]int{}), false, false, c09t.RArray, c09t.PArray,
 			func() retObs { return retObs{false, c09t.RArray(0)} },
 			func(x interface{}) int { v, _ := x.([2]int); return c09t.PArray(v) }},
@@ -288,6 +298,18 @@ func cells(ks []*kindSpec) []*cell {
 	open("struct", clSameSize, "other16{}", other16{}, whySameSize+" (same size, other field layout)")
 	reject("struct", clSmaller, "s8{}", s8{})
 	reject("struct", clLarger, "s24{}", s24{})
+
+	// structs consisting of one pointer-shaped word
+	w1p, w1q := &c09t.S{A: 7}, &c09t.S{A: 8}
+	deliver("struct1ptr", clZero, "W1{}", c09t.W1{}, c09t.W1{}, c09t.W1{P: w1p})
+	deliver("struct1ptr", clNonZero, "W1{&S{7}}", c09t.W1{P: w1p}, c09t.W1{P: w1p}, c09t.W1{P: w1q}, c09t.W1{})
+	deliver("struct1ptr", clStandinS, "w1Twin{&S{7}}", w1Twin{Q: w1p}, c09t.W1{P: w1p}, c09t.W1{P: w1q}, c09t.W1{})
+	deliver("struct1ptr", clStandinS, "w1Twin{nil}", w1Twin{}, c09t.W1{}, c09t.W1{P: w1p})
+	reject("struct1ptr", clLarger, "s24{}", s24{})
+	w1m, w1n := map[string]int{"a": 1}, map[string]int{"b": 2}
+	deliver("struct1map", clNonZero, "W1m{map a}", c09t.W1m{M: w1m}, c09t.W1m{M: w1m}, c09t.W1m{M: w1n})
+	deliver("struct1map", clStandinS, "w1mTwin{map a}", w1mTwin{N: w1m}, c09t.W1m{M: w1m}, c09t.W1m{M: w1n})
+	reject("struct1map", clLarger, "s24{}", s24{})
 
 	// [2]int
 	open("[2]int", clUntypedNil, "nil", nil, whyNilNonNilable)
